@@ -565,22 +565,23 @@ def ohv_cross_values(phases, u, crosses):
 
 
 def ndpt_to_vec_dist(front, obj_wt, vec_wt):
-    """distance of each (weighted, min-max scaled) point to the preference line — the documented default
-    non-dominated-set transformation; NaN where an objective is constant over the front"""
+    """distance of each point (objectives signed by obj_wt, min-max scaled per objective; an objective that is
+    constant over the front contributes 0) to the preference line spanned by vec_wt — the documented default
+    non-dominated-set transformation"""
     out = []
-    front = [[float(v) * float(w) for v, w in zip(row, vec_wt)] for row in front]
+    front = [[float(v) * float(w) for v, w in zip(row, obj_wt)] for row in front]
     nobj = len(front[0])
     lo = [min(r[j] for r in front) for j in range(nobj)]
     sc = []
     for j in range(nobj):
         col = [r[j] - lo[j] for r in front]
         mx = max(col)
-        sc.append([(c / mx) if mx != 0 else float("nan") for c in col])
-    vv = sum(float(w) * float(w) for w in obj_wt)
+        sc.append([(c / mx) if mx != 0 else 0.0 for c in col])
+    vv = sum(float(w) * float(w) for w in vec_wt)
     for i in range(len(front)):
         p = [sc[j][i] for j in range(nobj)]
-        s = sum(pj * float(w) for pj, w in zip(p, obj_wt)) / vv
-        d = math.sqrt(sum((pj - s * float(w)) ** 2 for pj, w in zip(p, obj_wt)))
+        s = sum(pj * float(w) for pj, w in zip(p, vec_wt)) / vv
+        d = math.sqrt(sum((pj - s * float(w)) ** 2 for pj, w in zip(p, vec_wt)))
         out.append(d)
     return out
 
